@@ -489,7 +489,8 @@ def run_entry(workload, config=None, decisions=None, cache=None, keep_result=Fal
                     for fs in traceback.extract_tb(exc.__traceback__):
                         fn = fs.filename
                         if "/pyimpspec/" in fn:
-                            frames.append((fn.split("/pyimpspec/")[-1], fs.name))
+                            # third element: does the frame's current statement start with `raise` (a deliberate refusal)?
+                            frames.append((fn.split("/pyimpspec/")[-1], fs.name, (fs.line or "").strip().startswith("raise")))
                         elif "/simkit/" in fn:
                             frames.append(("<simkit>", fs.name))
                         else:
